@@ -44,10 +44,11 @@ ASSUMPTIONS = [
 ]
 FLOORS = {
     "quick": {"history-steps": 35000, "histories": 12000, "baseline-crosschecks": 20,
-              "reuse-histories": 3000, "factory-after-parse": 1000, "deferred-loads": 2000},
+              "reuse-histories": 3000, "factory-after-parse": 1000, "deferred-loads": 2000,
+              "steps-with-drawn-scripts": 3000},
     "thorough": {"history-steps": 400000, "histories": 80000, "baseline-crosschecks": 60,
                  "reuse-histories": 30000, "factory-after-parse": 20000,
-                 "deferred-loads": 10000},
+                 "deferred-loads": 10000, "steps-with-drawn-scripts": 60000},
 }
 SHARD_TIMEOUT = {"quick": 600, "thorough": 3000}
 
@@ -174,15 +175,38 @@ def plan(tier, seed):
 
 
 # ---------------------------------------------------------------------------
+def text_of(sid):
+    """a pool script by index, or a drawn script carried in the step itself"""
+    return sid if isinstance(sid, str) else SCRIPTS[sid]
+
+
+def drawn_scripts(rng, n):
+    """scripts from the sentence generator of the parser checks (rv/gen.py): accepted ones
+    with random requires, values from W-TEXT, and single-token edits of them"""
+    out = []
+    g = gen.ScriptGen(rng, maxdepth=2, hostile=0.3, multiline=0.1)
+    while len(out) < n:
+        toks, _exts = g.script(rng.randint(1, 4))
+        if rng.random() < 0.4:
+            eds = gen.targeted_edits(toks, rng) or [toks]
+            toks = rng.choice(eds)
+            toks = toks[-1] if isinstance(toks, tuple) else toks
+        try:
+            out.append(gen.render(toks).decode("utf-8"))
+        except (UnicodeDecodeError, TypeError):
+            continue
+    return out
+
+
 def run_step(step, parsers):
     """Execute one step; returns a picklable outcome."""
     kind = step[0]
     if kind == "parse":
         _, sid, mode = step
         try:
-            data = SCRIPTS[sid].encode("utf-8")
+            data = text_of(sid).encode("utf-8")
         except UnicodeEncodeError:
-            data = SCRIPTS[sid]  # goes to parse() as str
+            data = text_of(sid)  # goes to parse() as str
         if mode == "reuse":
             p = parsers.setdefault("shared", lab.sl_parser.Parser())
         else:
@@ -260,9 +284,9 @@ def run_history(steps):
         if s[0] == "load":
             p = lab.sl_parser.Parser()
             try:
-                o = lab.parse(SCRIPTS[s[1]].encode("utf-8"), parser=p)
+                o = lab.parse(text_of(s[1]).encode("utf-8"), parser=p)
             except UnicodeEncodeError:
-                o = lab.parse(SCRIPTS[s[1]], parser=p)
+                o = lab.parse(text_of(s[1]), parser=p)
             out.append(("load-parse", o.verdict()))
             if o.verdict() is True:
                 deferred.append(p)
@@ -304,9 +328,9 @@ def load_step(rng):
 
 def describe(step):
     if step[0] == "parse":
-        return {"parse": SCRIPTS[step[1]], "parser": step[2]}
+        return {"parse": text_of(step[1]), "parser": step[2]}
     if step[0] == "load":
-        return {"parse-and-keep-parser-then-build-FiltersSet-at-the-end": SCRIPTS[step[1]]}
+        return {"parse-and-keep-parser-then-build-FiltersSet-at-the-end": text_of(step[1])}
     c, a, m = FACTORY[step[1]]
     if c == "api":
         return {"commands-api": a, "arg": m}
@@ -428,14 +452,26 @@ def run_shard(tier, shard, res: Result):
                                                             describe(step_of(b, "reuse"))]}, 2)
         crosscheck(res, rng, 2)
     else:
+        drawn = drawn_scripts(rng, 16)
         for i in range(shard["n"]):
+            if i % 200 == 199:
+                for d in drawn:
+                    _baseline.pop(("parse", d), None)
+                    _baseline.pop(("load", d), None)
+                drawn = drawn_scripts(rng, 16)
             L = rng.randint(3, shard["maxlen"])
             mode = rng.choice(["reuse", "reuse", "fresh", "mixed"])
             steps = []
             for _ in range(L):
                 m = mode if mode != "mixed" else rng.choice(["reuse", "fresh"])
-                if rng.random() < 0.15:
+                r = rng.random()
+                if r < 0.15:
                     steps.append(load_step(rng))
+                elif r < 0.35:
+                    # a drawn script instead of a pool script (parse or parse-and-load-later)
+                    res.count("steps-with-drawn-scripts")
+                    steps.append(("load", rng.choice(drawn)) if rng.random() < 0.2
+                                 else ("parse", rng.choice(drawn), m))
                 else:
                     steps.append(step_of(rng.randrange(NSTEPS), m))
             check_history(steps, res)
